@@ -59,6 +59,9 @@ def classify(tr, line, clause):
     ty, kind = tr.get("ty", "?"), tr.get("kind", "?")
     if kind in ("tok", "free", "law", "unesc", "crash"):
         return "%s:%s:%s" % (clause, kind, e.get("op", "?"))
+    if kind == "fresh" or str(tr.get("tid", "")).startswith("fresh:"):
+        return "%s:%s:fresh:%s:%s:%s" % (clause, ty, tr.get("what", "?"), e.get("op", "?"),
+                                         e.get("parsex") or e.get("encx") or e.get("t2x") or e.get("textx") or "")
     src = ev[0] if ev else {}
     vec = src.get("vec", [])
     exc = e.get("textx") or e.get("parsex") or e.get("encx") or e.get("t2x") or ""
@@ -227,7 +230,19 @@ def run(ctx):
                              "genconfigs": sorted(c["id"] for c in U["genconfigs"]), "numsubst": len(U["numsubst"])}
     for tr in wtraces[:2] + ttraces[:1]:
         ctx.sample({"tid": tr["tid"], "ty": tr["ty"], "ev": tr["ev"][:2]})
-    alltr = wtraces + ttraces
+    # fresh-interpreter scenario: order of first lookups of a type (foreign class first / home class first)
+    fitems = drv.fresh_items(U, wj)
+    ftraces = []
+    for order in ("foreign-first", "home-first"):
+        ftraces += drv.run_fresh(order, fitems, U)
+    for tr in ftraces:
+        job_of[tr["tid"]] = ("fresh", {"order": tr.get("what"), "ty": tr.get("ty")})
+        if tr["kind"] != "crash":
+            ctx.distinct.add(tr["tid"])
+    ctx.extra["fresh_traces"] = {"orders": ["foreign-first", "home-first"], "types": len(fitems), "traces": len(ftraces),
+                                 "foreign_classes": list(drv.FOREIGN_CLASSES)}
+    ctx.log("fresh-interpreter scenario: %d types x 2 orders, %d traces" % (len(fitems), len(ftraces)))
+    alltr = wtraces + ttraces + ftraces
     ctx.evaluations = len(etraces) + sum(max(1, len(tr["ev"]) - 1) for tr in alltr)
     rej = ctx.validate("Trace_RdataText", "Trace_RdataText.cfg", alltr)
     for tr, line, clause in rej:
@@ -242,6 +257,12 @@ def replay(ctx):
     if layer == "exact":
         tr = drv.run_exact(tuple(job) if isinstance(job, list) else job)
         rej = ctx.validate("Trace_RdTokenizer", "Trace_RdTokenizer.cfg", [tr])
+    elif layer == "fresh":
+        U = ctx.generate("Gen_RdTextUniverse", ctx.cfg("gen_universe.cfg", GEN_CFG % ("FALSE" if case.get("tier", "quick") == "quick" else "TRUE")))[0]
+        drv.set_universe(U)
+        items = [it for it in drv.fresh_items(U, drv.vectors(U)) if it["ty"] == job["ty"]]
+        trs = drv.run_fresh(job["order"], items, U)
+        rej = ctx.validate("Trace_RdataText", "Trace_RdataText.cfg", trs)
     else:
         U = ctx.generate("Gen_RdTextUniverse", ctx.cfg("gen_universe.cfg", GEN_CFG % ("FALSE" if case.get("tier", "quick") == "quick" else "TRUE")))[0]
         drv.set_universe(U)
